@@ -688,7 +688,7 @@ class SymWalker:
         seen = {}
         out = []
         for e in self.effects:
-            k = (id(e.node), e.kind, e.text(), id(getattr(e, "raw", None)))
+            k = (id(e.node), e.kind, e.text(), id(getattr(e, "raw", None)), getattr(e, "prev", None))
             if k in seen:
                 seen[k].reach = f_or(seen[k].reach, e.reach)
             else:
@@ -777,8 +777,17 @@ class SymWalker:
                     else:
                         self._bind(t, ast.Subscript(copy.deepcopy(value), ast.Constant(i), ast.Load()) if value is not None else None)
 
+    LAST = "\0last-call"
+
     def _effect(self, kind, st, reach, **kw):
-        self.effects.append(Effect(kind, getattr(st, "_orig", st), reach, tuple(self.loop_stack), **kw))
+        e = Effect(kind, getattr(st, "_orig", st), reach, tuple(self.loop_stack), **kw)
+        e.prev = None
+        if kind == "call" and _ordered_call(e):
+            # calls happen in an order (streams!): remember what the previous ordered call on this path was
+            p_ = self.env.get(self.LAST)
+            e.prev = p_.value if p_ is not None else "start"
+            self.env[self.LAST] = ast.Constant(norm(e.call))
+        self.effects.append(e)
 
     def _record_guard(self, st, c, ctest):
         if id(st) in self.guards and repr(self.guards[id(st)]) != repr(c):
@@ -939,6 +948,7 @@ class SymWalker:
                 env0 = {k: v for k, v in s.env.items() if k not in assigned}
                 self.loop_stack.append(LoopCtx(st, it, norm(st.target) if is_for else None, s.reach))
                 body_state = State(dict(env0), s.reach)
+                body_state.env[self.LAST] = ast.Constant("iteration start")
                 if not is_for:
                     self.env = body_state.env
                     cond = self.atomize(st.test)
@@ -949,6 +959,9 @@ class SymWalker:
                 outs += these
                 self.loop_stack.pop()
                 post = State(env0, s.reach)
+                if any(x.prev is not None for x in self.effects[n_eff:]):
+                    post.env = dict(env0)
+                    post.env[self.LAST] = ast.Constant("loop over %s" % (norm(it) if it is not None else "while"))
                 comp = self._as_comprehension(st, it, s, these, assigned, n_exits, n_eff) if is_for else None
                 if comp is not None:
                     post.env = dict(env0)
@@ -1076,6 +1089,15 @@ class SymWalker:
                 subbed = self.sub(n)
                 if not isinstance(subbed, ast.Call):
                     continue        # canonicalised away (bool(int), divmod, inlined helper ...)
+                fn_t = norm(subbed.func)
+                if (fn_t == "stream_struct" or fn_t.endswith(".stream_struct")) and top and n is e and len(subbed.args) >= 3 and isinstance(subbed.args[0], ast.Constant) \
+                        and isinstance(subbed.args[0].value, str) and "[" not in subbed.args[0].value and len(subbed.args[0].value) == len(subbed.args) - 2 > 1 and not subbed.keywords \
+                        and not any(isinstance(a_, ast.Starred) for a_ in subbed.args):
+                    # stream_struct("QL", f, a, b) is stream_struct("Q", f, a) followed by stream_struct("L", f, b)
+                    for ch, a_ in zip(subbed.args[0].value, subbed.args[2:]):
+                        one = ast.Call(subbed.func, [ast.Constant(ch), subbed.args[1], a_], [])
+                        self._effect("call", st, reach, call=one, raw=n, top=True)
+                    continue
                 self._effect("call", st, reach, call=subbed, raw=n, top=(top and n is e))
                 f = n.func
                 if isinstance(f, ast.Attribute) and isinstance(f.value, ast.Name) and f.attr in MUTATORS and f.value.id in self.env:
@@ -1133,6 +1155,14 @@ def _prop_feasible(f):
         return False
     except Exception:
         return True
+
+
+def _ordered_call(e):
+    f = e.raw.func
+    t = norm(f)
+    if t.startswith(("logger.", "logging.", "log.", "warnings.")) or t == "print":
+        return False
+    return bool(getattr(e, "top", False)) or (isinstance(f, ast.Attribute) and f.attr in MUTATORS and isinstance(f.value, ast.Name))
 
 
 MUTATORS = {"append", "extend", "insert", "pop", "remove", "sort", "reverse", "clear", "update", "setdefault", "popitem", "add", "discard", "write"}
@@ -1621,7 +1651,7 @@ def summarize(func_node, canon, leaf=None, keep=()):
             if norm(e.raw.func).startswith(("logger.", "logging.", "log.", "warnings.")) or norm(e.raw.func) == "print":
                 continue        # diagnostics are not behaviour any property talks about
             if e.top or (isinstance(e.raw.func, ast.Attribute) and e.raw.func.attr in MUTATORS and isinstance(e.raw.func.value, ast.Name)):
-                raw.append(("effect", ["call ", e.call] + in_loop(e), e.reach))
+                raw.append(("effect", ["call ", e.call] + in_loop(e) + ([" after ", e.prev] if getattr(e, "prev", None) else []), e.reach))
         elif e.kind == "aug":
             continue        # augmented assignment of a local: the value is in the store, not an effect
         else:
@@ -1814,6 +1844,12 @@ def compare_summaries(code, ref, near=0.7):
         if k in ga:
             if not _equiv(ga[k], gb[k]):
                 details.append(("condition", k[0], "%s when %s" % (k[1], ff(gb[k])), "%s when %s" % (k[1], ff(ga[k])), 1.0))
+            continue
+        base = k[1].split(" after ")[0]
+        same_base = [k2 for k2 in unmatched_code if k2[0] == k[0] and k2[1].split(" after ")[0] == base]
+        if " after " in k[1] and same_base:
+            unmatched_code.remove(same_base[0])
+            details.append(("order", k[0], k[1], same_base[0][1], 1.0))
             continue
         best, bk = 0.0, None
         tk = _tokens(k[1])
